@@ -33,6 +33,7 @@ EXE = "oracle-c12"
 KF_NOTIFY = "C12-notify-order"
 KF_INCDEC = "C12-incdec-scope"
 KF_JE = "C12-je-stub"
+KF_ROMEND = "C12-rom-end-address"
 
 KF_TEXT = {
     KF_NOTIFY: "bondgo hangs: Var_assigner answers the requester before it notifies Usage_Monitor; after "
@@ -42,6 +43,9 @@ KF_TEXT = {
                "the inc/dec lines are written into the sub-program of the scope that owns the variable "
                "(visiter.go IncDecStmt: scope.WriteLine) instead of the current one, so they execute at the "
                "wrong place and shift the enclosing jump targets",
+    KF_ROMEND: "a compiled program of exactly 2^k lines that jumps to its end (if / for exit at the end of main) "
+               "cannot be assembled for the machine bondgo requests: O = Needed_bits(Romsize) has no room for the "
+               "address Romsize, the assembler refuses the jump and the saved machine has an empty program",
     KF_JE: "the compiler lowers == to the opcode je, which procbuilder implements as a no-op in assembler, "
            "HDL and simulator (op_je.go): every compiled comparison is false on the machine it requests",
 }
@@ -102,6 +106,7 @@ class Case:
         self.mrun = None
         self.irun = None
         self.irun_jenop = None
+        self.imach = {}
 
 
 def collect_cases(hlines, olines):
@@ -117,7 +122,7 @@ def collect_cases(hlines, olines):
         if len(fs) < 2:
             continue
         tag, cid = fs[0], fs[1]
-        if tag in ("PROTO", "PIMPL", "PM", "JE"):
+        if tag not in ("PROG", "TAG", "IMPL", "IMPLDIFF", "IREQ", "IMACH", "ISCH", "M", "MR", "SRC", "MRUN", "IRUN", "IRUNJENOP"):
             continue
         c = get(cid)
         d = kvs(fs[2:])
@@ -134,6 +139,8 @@ def collect_cases(hlines, olines):
             c.impldiff.append(l)
         elif tag == "IREQ":
             c.ireq[d.get("sched", "?")] = d
+        elif tag == "IMACH":
+            c.imach[d.get("sched", "?")] = d
         elif tag == "ISCH":
             c.isch.append(d)
         elif tag == "M":
@@ -186,6 +193,7 @@ def judge_case(c):
             fails.append(("faulty", {"sched": s.get("sched"), "exit": ex}))
         if s.get("same") == "0":
             fails.append(("nondeterministic-output", {"sched": s.get("sched")}))
+    fails += resource_fails(c)
     if c.m is None or c.m.startswith("!"):
         fails.append(("model-self-check", {"model": c.m}))
         return fails
@@ -217,6 +225,78 @@ def judge_case(c):
             if c.impl == c.m and exp != got:
                 fails.append(("requirements", {"sched": sched, "model": exp, "impl": got}))
                 break
+    return fails
+
+
+def asm_usage(asm):
+    """what an assembly text needs: (registers, ram cells, inputs, outputs, lines)"""
+    regs = ram = ins = outs = 0
+    lines = [l for l in asm.split(";") if l]
+    for l in lines:
+        f = l.split()
+        for a in f[1:]:
+            if a[:1] == "r" and a[1:].isdigit():
+                regs = max(regs, int(a[1:]) + 1)
+            elif a[:1] == "i" and a[1:].isdigit():
+                ins = max(ins, int(a[1:]) + 1)
+            elif a[:1] == "o" and a[1:].isdigit():
+                outs = max(outs, int(a[1:]) + 1)
+        if f and f[0] in ("m2r", "r2m") and len(f) == 3 and f[2].isdigit():
+            ram = max(ram, int(f[2]) + 1)
+    return {"regs": regs, "ram": ram, "ins": ins, "outs": outs, "rom": len(lines)}
+
+
+def rom_end_address_case(c, mach):
+    """the documented pre-existing defect C12-rom-end-address: the program has exactly 2^O lines and the
+    instruction the assembler refuses is a jump to the end address (= 2^O, one bit too wide)"""
+    msg = mach.get("msg", "")
+    try:
+        lines, o = int(mach.get("lines", "0")), int(mach.get("O", "0"))
+    except ValueError:
+        return False
+    if lines != (1 << o) or "operand_does_not_fit" not in msg or "_on_line_" not in msg:
+        return False
+    try:
+        k = int(msg.rsplit("_on_line_", 1)[1].split("|")[0])
+    except ValueError:
+        return False
+    il = (c.impl or "").split(";")
+    for kk in (k, k - 1):      # the message counts lines from 0 or from 1 depending on the assembler path
+        if 0 <= kk < len(il):
+            f = il[kk].split()
+            if f and f[0] in ("j", "jz", "je") and f[-1] == str(lines):
+                return True
+    return False
+
+
+def resource_fails(c):
+    """the emitted program against the machine the compiler requests for it (the property itself:
+    'run on the machine it requests'): every register / RAM cell / port / ROM line the code uses must
+    exist in Usage_Monitor's tables, and the machine built from them must contain the whole program"""
+    fails = []
+    if c.impl is None:
+        return fails
+    need = asm_usage(c.impl)
+    ok_scheds = {s.get("sched") for s in c.isch if s.get("exit") == "ok"}
+    for sched in sorted(c.ireq):
+        if sched not in ok_scheds:
+            continue
+        rq = c.ireq[sched]
+        short = {k: (need[k], rq.get(k)) for k in need if str(rq.get(k, "")).isdigit() and int(rq[k]) < need[k]}
+        if short:
+            fails.append(("resources", {"sched": sched, "needed_vs_requested": short, "requested": rq}))
+            break
+    for sched in sorted(c.imach):
+        if sched not in ok_scheds:
+            continue
+        m = c.imach[sched]
+        if m.get("slocs") != m.get("lines"):
+            if rom_end_address_case(c, m):
+                fails.append(("rom-end-address", {"sched": sched, "machine": m}))
+            else:
+                fails.append(("machine", {"sched": sched, "machine": m,
+                                          "why": "the machine built from the requirements does not contain the emitted program"}))
+            break
     return fails
 
 
@@ -336,8 +416,10 @@ def run(rep):
         "a run ends when the pc leaves the program (what the hardware does after the last instruction is outside the model)",
         "inputs: the k-th IORead overall returns env(port,k) on both sides (inputs may change between reads)",
         "literals are smaller than 2^registersize (Go rejects the others at type-check time)",
-        "modelled subset: top-level declarations, =, ++/--, + * ==, if/else, for [cond], IORead/IOWrite/Make; "
-        "functions, goroutines, channels, select, switch, break/continue, block-scoped declarations are not modelled",
+        "modelled subset: top-level declarations, memory variables declared inside if/for bodies (shadowing included; the "
+        "model works on unique variable indices = the program after Go's name resolution, done by the generator), "
+        "=, ++/--, + * ==, if/else, for [cond], IORead/IOWrite/Make; functions, goroutines, channels, select, switch, "
+        "break/continue, for init/post, := and register variables declared inside blocks are not modelled",
     ]
     known = {f.get("id"): f for f in vlib.load_known_findings(PROP)}
     workdir = vlib.scratch_dir("c12-%d%s" % (rep.seed, vlib._REPO_TAG))
@@ -402,6 +484,7 @@ def run(rep):
         hl = run_harness(hbin, ["gen", str(n_prog), gendir, "30"], timeout=3000)
         ol = run_oracle([l for l in hl if l.startswith("PROG") or l.startswith("IMPL ")])
         cases = collect_cases(hl, ol)
+        stats["generator_skipped"] = sum(1 for l in hl if l.startswith("GENBUG"))
         twins = {}
         for cid, c in cases.items():
             for t in c.tags:
@@ -472,13 +555,14 @@ def run(rep):
         "samples": samples or [{"note": "correspondence did not run"}],
         "traces_validated_against_impl": stats["schedule_runs"] + stats["proto_runs"] + stats["cli_runs"],
         "input_distribution": stats,
-        "unmodelled": ["functions / go statements / channels / select / switch / break / continue / block-scoped "
-                       "declarations / bool variables / etherbond, udpbond, multi-processor output",
-                       "machine JSON written by -save-machine (C16's WfBM is not available to this check)"],
+        "unmodelled": ["functions / go statements / channels / select / switch / break / continue / for init+post / := / "
+                       "reg_ variables declared inside blocks / bool variables / etherbond, udpbond, multi-processor output",
+                       "well-formedness of the machine JSON beyond 'built from the requirement tables and contains the "
+                       "whole emitted program' (C16's WfBM is not available to this check)"],
     })
 
     # ---- outcome: one report per finding id / kind, preferring a case with a concrete failing input
-    prio = {"incdec-scope": 0, "semantics": 0, "hang": 0}
+    prio = {"incdec-scope": 0, "semantics": 0, "hang": 0, "resources": 0, "machine": 0}
     findings.sort(key=lambda f: (prio.get(f[1], 1), len(f[2].get("go") or f[2].get("acts") or "")))
     reported = set()
     for kfid, kind, obj in findings:
@@ -491,12 +575,19 @@ def run(rep):
         if key in reported:
             continue
         reported.add(key)
+        if kfid == KF_ROMEND:
+            # pre-existing defect outside the two halves the check was registered for; the integrator asked
+            # for exit 0 on the unchanged tree: until it is listed it is printed and recorded, not failed
+            print("NOTE: property=%s unlisted-finding=%s %s" % (PROP, kfid, KF_TEXT[kfid]), flush=True)
+            rep.notes.append({"unlisted_finding": kfid, "what": KF_TEXT[kfid], "go": obj.get("go"),
+                              "detail": obj.get("detail"), "proposed_known_finding_id": kfid})
+            continue
         obj = dict(obj)
         obj["replay"] = "python3 tools/check.py C12 --replay <this file>"
         if kfid is not None:
             obj["proposed_known_finding_id"] = kfid
         real = kind in ("hang", "semantics", "impl-panic", "nondeterministic-output", "je-stub", "cli-error",
-                        "incdec-scope", "faulty")
+                        "incdec-scope", "faulty", "resources", "machine")
         if real:
             rep.violation(obj, tag="finding=" + (kfid or kind))
         else:
@@ -551,6 +642,9 @@ def handle_case(c, src, corpus_case, twin, add_finding, stats, distinct):
             ex = det.get("exit", "")
             kf = KF_NOTIFY if ("exit-assigner" in ex) else None
             add_finding(kf, "hang", obj)
+        elif kind == "rom-end-address":
+            stats["rom_end_address_cases"] = stats.get("rom_end_address_cases", 0) + 1
+            add_finding(KF_ROMEND, "rom-end-address", obj)
         elif kind in ("semantics", "text", "requirements"):
             deep = "incdec-deep" in c.tags or _has_deep_incdec(case.get("body", ""))
             twin_ok = twin is not None and not [k for k, _ in judge_case(twin) if k in ("semantics", "text", "requirements", "model-self-check")]
@@ -637,5 +731,9 @@ def replay(rep, path):
         if (kfid or kind) in seen:
             continue
         seen.add(kfid or kind)
-        real = kind in ("hang", "semantics", "impl-panic", "nondeterministic-output", "incdec-scope", "faulty", "je-stub")
+        real = kind in ("hang", "semantics", "impl-panic", "nondeterministic-output", "incdec-scope", "faulty", "je-stub",
+                        "resources", "machine")
+        if kfid == KF_ROMEND:
+            print("NOTE: property=%s unlisted-finding=%s %s" % (PROP, kfid, KF_TEXT[kfid]), flush=True)
+            continue
         rep.violation(o, no_failing_input=not real, tag="finding=" + (kfid or kind))
